@@ -351,10 +351,15 @@ def run(chk):
 
         # ---- file-backed PT-TEMPO vs in-memory (same float operations) ----------
         sx_, sy_, sz_ = (oqupy.operators.sigma(a) for a in "xyz")
-        for j in range(6 if thorough else 3):
+        for j in list(range(6 if thorough else 3)) + [100, 101]:
             corr = oqupy.PowerLawSD(alpha=0.1 + 0.1 * (j % 3), zeta=1, cutoff=3.0, cutoff_type="exponential", temperature=0.2 * (j % 3))
             # diagonal (no transforms), complex eigenbasis, real non-diagonal eigenbasis, generic Hermitian 3x3, ...
-            if j % 6 == 3:
+            if j >= 100:
+                # every run: coupling operators that are ALMOST diagonal (off-diagonal elements of 5e-8 / 1e-3 beside a level
+                # splitting of 10 / 1): both routes must take the same decision about basis transforms
+                op = (np.diag([-5.0, 5.0]) + 5e-8 * sx_) if j == 100 else (np.diag([-0.5, 0.5]) + 1e-3 * (sx_ + sy_))
+                op = 2 * op.astype(complex)
+            elif j % 6 == 3:
                 z = np.array([[rng.gauss(0, 1) + 1j * rng.gauss(0, 1) for _ in range(3)] for _ in range(3)])
                 q, _ = np.linalg.qr(z)
                 op = q @ np.diag([1.0, 0.0, -0.5]) @ q.conj().T
